@@ -381,3 +381,96 @@ def trivia_diff(req):
                 fails.append({"program": text[:80], "variant": v[:400], "observed": r[0] if r[0] != "ok" else "different AST"})
     return {"evaluations": evals, "programs": progs, "failures": fails,
             "bound": "%d corpus programs x every token boundary x %d trivia strings + random multi-insertions" % (progs, len(pool))}
+
+
+TRANSCRIPT_PROGRAMS = [
+    'def e1 { splitters: uid return "A" weighted 1, "B" weighted 1, "C" weighted 2 }',
+    'def e2 { salt: "s1" splitters: uid, country return "A" weighted 1, "B" weighted 3 }',
+    'def e3 { salt: "café" splitters: b, a, c, a if age >= 18 and country in ("US", "CA") { return "x" weighted 1, "y" weighted 1 } else { return "z" weighted 1, "w" weighted 2 } }',
+    'def e4 { splitters: uid, UID, Uid, zeta, alpha return 1 weighted 1, 2 weighted 1, 3 weighted 1, 4 weighted 1 }',
+]
+
+
+@register("transcript")
+def transcript(req):
+    """C01 bounded: assignments of a fixed corpus, to be compared ACROSS interpreter processes (hash seed, locale, cwd)"""
+    import contextlib
+    import io
+    import os
+    from pyab_experiment.experiment_evaluator import ExperimentEvaluator
+    out = []
+    sink = io.StringIO()
+    for text in TRANSCRIPT_PROGRAMS:
+        with contextlib.redirect_stdout(sink), contextlib.redirect_stderr(sink):
+            ev = ExperimentEvaluator(text)
+            ev2 = ExperimentEvaluator(text)
+        row = []
+        for i in range(req.get("n", 60)):
+            env = {"uid": "user_%d" % i, "UID": i, "Uid": "%d" % (i % 7), "zeta": 1.5 * i, "alpha": None if i % 3 else True, "country": ["US", "CA", "FR"][i % 3], "age": 10 + i,
+                   "a": "a%d" % i, "b": i, "c": "café", }
+            r1 = outcome(ev, **env)
+            ev2.recompile(TRANSCRIPT_PROGRAMS[0])
+            ev2.recompile(text)
+            r2 = outcome(ev2, **dict(reversed(list(env.items()))))
+            r3 = outcome(ev, **env)
+            row.append([r1.get("value", r1.get("exc")), r2.get("value", r2.get("exc")), r3.get("value", r3.get("exc"))])
+        out.append(row)
+    return {"rows": out, "hashseed": os.environ.get("PYTHONHASHSEED"), "lang": os.environ.get("LANG"), "cwd": os.getcwd()}
+
+
+@register("thread_stress")
+def thread_stress(req):
+    """C17 bounded / replay attempt: threads construct, recompile and evaluate concurrently at a 1 microsecond switch
+    interval; every result must equal the sequential reference; a call racing with a recompile sees old or new"""
+    import contextlib
+    import io
+    import sys
+    import threading
+    import time
+    from pyab_experiment.experiment_evaluator import ExperimentEvaluator
+    texts = ['def e1 { /* c1 */ splitters: uid /* c2 */ if x >= 1 { return "A" weighted 1, "B" weighted 1 } else { return "C" weighted 1 } /* c3 */ }',
+             'def e2 { salt: "s" splitters: uid // lc\n if x in (1, 2, 3) and not y == "q" or x > 10 { return "P" weighted 1, "Q" weighted 3 } else if x < 0 { return "N" weighted 1 } else { return "R" weighted 1, "S" weighted 1 } }']
+    envs = [{"uid": "u%d" % i, "x": i % 5 - 1, "y": "q" if i % 2 else "z"} for i in range(12)]
+    sink = io.StringIO()
+    ref = []
+    with contextlib.redirect_stdout(sink), contextlib.redirect_stderr(sink):
+        for t in texts:
+            ev = ExperimentEvaluator(t)
+            ref.append([outcome(ev, **e).get("value") for e in envs])
+    old = sys.getswitchinterval()
+    sys.setswitchinterval(1e-6)
+    errors = []
+    stop = time.time() + req.get("seconds", 2.0)
+    shared = ExperimentEvaluator(texts[0])
+    counts = {"ops": 0}
+
+    def worker(k):
+        n = 0
+        try:
+            while time.time() < stop:
+                j = (n + k) % 2
+                ev = ExperimentEvaluator(texts[j])
+                got = [outcome(ev, **e).get("value") for e in envs]
+                if got != ref[j]:
+                    errors.append({"what": "construction under concurrency gave a different evaluator", "text": j})
+                if k % 2 == 0:
+                    shared.recompile(texts[n % 2])
+                else:
+                    r = outcome(shared, **envs[n % len(envs)])
+                    i = n % len(envs)
+                    if r["outcome"] != "return" or r["value"] not in (ref[0][i], ref[1][i]):
+                        errors.append({"what": "call racing with recompile saw neither old nor new", "observed": r})
+                n += 1
+        except BaseException as e:   # noqa
+            errors.append({"what": "exception in worker", "exc": repr(e)[:200]})
+        counts["ops"] += n
+    try:
+        with contextlib.redirect_stdout(sink), contextlib.redirect_stderr(sink):
+            ths = [threading.Thread(target=worker, args=(k,)) for k in range(req.get("threads", 8))]
+            for t in ths:
+                t.start()
+            for t in ths:
+                t.join()
+    finally:
+        sys.setswitchinterval(old)
+    return {"evaluations": counts["ops"], "failures": errors[:3], "bound": "%d threads, %.1f s, switch interval 1e-6" % (req.get("threads", 8), req.get("seconds", 2.0))}
